@@ -1,5 +1,6 @@
 SPECIFICATION Spec
 CONSTANTS Growth = 2 Mode = "bytes" MaxBits = 8 Wide = FALSE Lean = FALSE
+INVARIANT UniverseLegal
 INVARIANT RoundTrip
 INVARIANT LengthInBLS
 INVARIANT WholeBytes
